@@ -51,8 +51,8 @@ def build(ctx, ka, kb, template, fr_name, perm):
             return A, _one(kb, R.affine(A0, (t, e1)), R.vscale(u, e1))
         if template == 'parallel':           # displaced copy: u = 0 is the collinear case
             return A, _one(kb, R.affine(A0, (t, e1), (u, e2)), R.vscale(F(3, 2), e1))
-        if template == 'cross':              # B crosses A's carrier at A0 + t*(2 e1) at its own parameter u
-            w = R.vadd(e2, R.vscale(F(1, 2), e1))
+        if template in ('cross', 'crossneg'):  # B crosses A's carrier at A0 + t*(2 e1) at its own parameter u (crossneg: at an obtuse angle)
+            w = R.vadd(e2, R.vscale(F(1, 2) if template == 'cross' else F(-1, 2), e1))
             x = R.affine(A0, (2 * t, e1))
             return A, _one(kb, R.affine(x, (-u, w)), w)
         if template == 'skew':               # crossing configuration lifted by u along the common normal
@@ -67,8 +67,8 @@ def build(ctx, ka, kb, template, fr_name, perm):
         k1 = ka if ka in ONE else kb
         if template == 'lift':               # parallel to the plane at height u (u = 0: inside)
             L = _one(k1, R.affine(A0, (t, e1), (u, n)), R.vscale(2, e2))
-        elif template == 'cross':            # pierces the plane at its own parameter u
-            w = R.vadd(n, e1)
+        elif template in ('cross', 'crossneg'):   # pierces the plane at its own parameter u (crossneg: against the stored normal)
+            w = R.vadd(n if template == 'cross' else R.vscale(F(-1), n), e1)
             L = _one(k1, R.affine(A0, (t, e2), (-u, w)), w)
         else:                                # 'tilt': starts at height t, direction e1 + u n (u = 0: parallel)
             L = _one(k1, R.affine(A0, (t, n)), R.affine(e1, (u, n)))
@@ -76,6 +76,8 @@ def build(ctx, ka, kb, template, fr_name, perm):
     if ka == 'Plane' and kb == 'Plane':
         if template == 'offset':
             return A, R.RPlane(R.affine(A0, (t, n), (u, e1)), R.vscale(F(-3, 2), n))
+        if template == 'tiltneg':            # as 'tilt' with the second normal at an obtuse angle to the first (u = 0: opposite)
+            return A, R.RPlane(R.affine(A0, (t, n)), R.affine(R.vscale(F(-1), n), (u, e1)))
         return A, R.RPlane(R.affine(A0, (t, n)), R.affine(n, (u, e1)))
     raise ValueError((ka, kb, template))
 
@@ -100,12 +102,12 @@ def fam_pair(ctx, ka, kb, template, fr_name, perm, swap, method):
 
 
 TEMPLATES = {
-    ('1', '1'): ['collinear', 'parallel', 'cross', 'skew', 'tilt'],
-    ('1', 'P'): ['lift', 'cross', 'tilt'],
-    ('P', '1'): ['lift', 'cross', 'tilt'],
-    ('P', 'P'): ['offset', 'tilt'],
+    ('1', '1'): ['collinear', 'parallel', 'cross', 'skew', 'tilt', 'crossneg'],
+    ('1', 'P'): ['lift', 'cross', 'tilt', 'crossneg'],
+    ('P', '1'): ['lift', 'cross', 'tilt', 'crossneg'],
+    ('P', 'P'): ['offset', 'tilt', 'tiltneg'],
 }
-REACH = {'collinear': (), 'cross': ('None', 'Point'), 'skew': ('None', 'Point'), 'lift': ('None',), 'offset': ('None', 'Plane')}
+REACH = {'collinear': (), 'cross': ('None', 'Point'), 'crossneg': ('None', 'Point'), 'skew': ('None', 'Point'), 'lift': ('None',), 'offset': ('None', 'Plane')}
 
 
 def _cls(k):
@@ -127,12 +129,12 @@ def families(tier, seed):
                     key = (_cls(ka), _cls(kb))
                     temps = TEMPLATES.get(key, ['slice'])
                     for tp in temps:
-                        if tier == 'quick' and fi > 0 and tp in ('parallel', 'skew'):
+                        if tier == 'quick' and fi > 0 and tp in ('parallel', 'skew', 'crossneg', 'tiltneg'):
                             continue
                         for swap in ((False,) if tier == 'quick' and fi > 0 else (False, True)):
                             method = (fi % 2 == 1)
                             reach = REACH.get(tp, ())
-                            if tp == 'cross' and all(k in ('Line', 'Plane') for k in (ka, kb)):
+                            if tp in ('cross', 'crossneg') and all(k in ('Line', 'Plane') for k in (ka, kb)):
                                 reach = ('Point',)       # two unbounded carriers that cross always meet
                             fams.append(Family('%s-%s/%s/%s/%s%s' % (ka, kb, tp, tag, 'swap' if swap else 'fwd', '/m' if method else ''),
                                                fam_pair, (ka, kb, tp, fr_name, perm, swap, method), must_reach=reach))
